@@ -24,8 +24,8 @@ class C01:
             'side effect or a boundary operand; distinct = by (set of operator/type-pair features, context).')
     assumptions = ['gcc 12 and clang 14 at -O0 implement C11 integer semantics; a case counts only when both agree with each other and with the model',
                    'implementation-defined behaviour pinned to the references: arithmetic >> on negative values, modulo narrowing conversions, char is signed',
-                   'D02 (postfix ++/-- on _Bool) is a recorded finding and is excluded from generation (counted)']
-    excl = {'D02': 0}
+                   ]
+    excl = {}
 
     def budget(self, tier):
         return 1400 if tier == 'quick' else 40000
@@ -110,7 +110,6 @@ class C01:
         while ch.more(len(cases), 1, 40):
             cases.append(self.gen_case(ch, depth))
         fails = diffprog.judge(ctx, cases)
-        ctx.stats.counters['excluded_by_known_finding:D02'] = self.excl['D02']
         if fails:
             raise diffprog.violation_from(cases, fails[0])
 
